@@ -73,6 +73,11 @@ def case_strategy(draw, tier):
             c["marginals"] = ms
             if loader == "marginal_sampling":
                 c["n_samples"] = 20000
+                if T >= 2 and draw(st.integers(0, 5)) == 5 and all(m["kind"] == "table" for m in ms):
+                    # one topology with a wide degree range (beyond 255), the others narrow and starting higher
+                    c["bounds"][0] = [0, draw(st.integers(260, 320))]
+                    for b in c["bounds"][1:]:
+                        b[0], b[1] = 2, 2 + draw(st.integers(1, 2))
     return c
 
 
